@@ -69,5 +69,21 @@ def run(ctx):
         if not M or not M[0]:
             continue
         lines.append("%d %d %d %s" % (rng.choice([0, 1]), rng.below(2), rng.below(2), mat_line(M)))
+    # multi-block matrices (blocks in their given order, no permutation): dense random blocks (mostly unbalanced and not
+    # series-parallel) next to series-parallel blocks, under every algorithm incl. the unimplemented graph-based one (an error of
+    # one block must stay the status of the call) with series-parallel preprocessing on and off
+    for _ in range(4000 if q else 60000):
+        M = None
+        for _b in range(2 + rng.below(2)):
+            if rng.below(2):
+                B = rand_matrix(rng, 3, 3 + rng.below(2), (-1, 0, 1), 7, 10)
+            else:
+                B = gen.add_sp_lines(rng, [[rng.choice([1, -1])]], 1 + rng.below(3), True)
+            if not B or not B[0]:
+                continue
+            M = B if M is None else gen.block_diag(M, B)
+        if M is None or len(M) > 8 or len(M[0]) > 8:
+            continue
+        lines.append("%d %d %d %s" % (rng.choice([2, 2, 0, 1]), 1 if rng.below(4) else 0, rng.below(2), mat_line(M)))
     ctx.stream("balanced", lines, "balanced: exhaustive small x algorithm x SP, random, structured",
                describe=lambda c: CODES.get(c, str(c)), nontrivial=nontrivial)
